@@ -109,7 +109,7 @@ var driverMethodNames = map[string]bool{"Prepare": true, "PrepareContext": true,
 	"OpenConnector": true, "NumInput": true, "IsValid": true, "CheckNamedValue": true, "Driver": true}
 
 func checkC16(r *core.Run) {
-	r.Explain = "Decided statically: (C16.notraffic) on every call chain from a database/sql/driver entry point of the proxy types to a remoting sink (BranchRegister, BranchReport, LockQuery, SendSyncRequest) at least one call site is control-dependent on an accepted global-transaction predicate; (C16.forward) pass-through methods hand the target driver their own ctx / query / args (or the repo's value<->named conversion of them), never a fresh context, and use the executor's result only on its nil-error edge; (C16.noextra) outside a global transaction no failure source of the proxy's own (SQL parser, table-meta lookup) lies on the path of a statement; (C16.execctx) every ExecContext literal handed to an executor sets the non-boolean fields the live AT executors read. (C16.once) a connection method that installs a one-statement transaction context (createOnceTxContext answered true) puts a fresh local context back on every exit, failing ones included — otherwise the connection keeps AT/XA mode and the old xid after the global transaction and later local work is treated as a branch; (C16.dispatch) the AT executor dispatch constructs an executor that issues statements of its own (image queries, lock queries) only on paths where tm.IsGlobalTx holds for the context of the current call — state kept in a TransactionContext is not accepted there, because a prepared statement keeps the context it was prepared with. NOT decided: result equivalence of arbitrary statement programs (differential behaviour)."
+	r.Explain = "Decided statically: (C16.notraffic) on every call chain from a database/sql/driver entry point of the proxy types to a remoting sink (BranchRegister, BranchReport, LockQuery, SendSyncRequest) at least one call site is control-dependent on an accepted global-transaction predicate; (C16.forward) pass-through methods hand the target driver their own ctx / query / args (or the repo's value<->named conversion of them), never a fresh context, and use the executor's result only on its nil-error edge; (C16.noextra) outside a global transaction no failure source of the proxy's own (SQL parser, table-meta lookup) lies on the path of a statement; (C16.execctx) every ExecContext literal handed to an executor sets the non-boolean fields the live AT executors read. (C16.reset) when database/sql reuses a pooled connection (ResetSession delegating to the driver) the proxy's transaction context is a fresh one — or is cleared by a method that assigns every field of the context, the transaction mode included; (C16.once) a connection method that installs a one-statement transaction context (createOnceTxContext answered true) puts a fresh local context back on every exit, failing ones included — otherwise the connection keeps AT/XA mode and the old xid after the global transaction and later local work is treated as a branch; (C16.dispatch) the AT executor dispatch constructs an executor that issues statements of its own (image queries, lock queries) only on paths where tm.IsGlobalTx holds for the context of the current call — state kept in a TransactionContext is not accepted there, because a prepared statement keeps the context it was prepared with. NOT decided: result equivalence of arbitrary statement programs (differential behaviour)."
 	r.Trusted = []string{"go/types, go/cfg", "CHA over repository types; database/sql/driver interfaces are the wrapped driver"}
 	w := r.W
 	pts := proxyTypes(w)
@@ -341,6 +341,8 @@ func checkC16(r *core.Run) {
 	r.Floor("C16.dispatch", 5)
 	c16Once(r)
 	r.Floor("C16.once", 6)
+	c16ResetSession(r)
+	r.Floor("C16.reset", 1)
 	r.Floor("C16.notraffic", 25)
 	r.Floor("C16.forward", 20)
 	r.Floor("C16.noextra", 1)
@@ -653,5 +655,87 @@ func c16Once(r *core.Run) {
 		if n == 0 {
 			r.Undecided("C16.once", core.ShortKey(f.Obj)+" exits after createOnceTxContext answered true", w.Pos(f.Decl.Pos()), "no exit found on the true edge of createOnceTxContext")
 		}
+	}
+}
+
+// c16ResetSession: a reused pooled connection starts with a fresh (or completely cleared) transaction context.
+func c16ResetSession(r *core.Run) {
+	w := r.W
+	conn := w.NamedType("pkg/datasource/sql", "Conn")
+	f := methodInfo(w, conn, "ResetSession")
+	if r.Anchor("C16.reset", f, "sql.Conn.ResetSession") == nil {
+		return
+	}
+	tc := w.NamedType("pkg/datasource/sql/types", "TransactionContext")
+	partial := ""
+	sp := &flow.Spec{W: w, Depth: 0,
+		Classify: func(pkg *packages.Package, call *ast.CallExpr, callee *types.Func) []flow.Tag {
+			if callee == nil {
+				return nil
+			}
+			if stdMethod(callee, pDriver, "SessionResetter", "ResetSession") {
+				return []flow.Tag{"delegate"}
+			}
+			// a clearing method on the context: complete only if it assigns every field
+			if g := w.Info(callee); g != nil && tc != nil && core.RecvNamed(callee) == tc {
+				st, _ := tc.Underlying().(*types.Struct)
+				assigned := map[string]bool{}
+				ast.Inspect(g.Decl.Body, func(n ast.Node) bool {
+					if as, ok := n.(*ast.AssignStmt); ok {
+						for _, l := range as.Lhs {
+							if sel, ok := ast.Unparen(l).(*ast.SelectorExpr); ok {
+								assigned[sel.Sel.Name] = true
+							}
+							if se, ok := ast.Unparen(l).(*ast.StarExpr); ok && core.ExprString(se.X) != "" {
+								for i := 0; st != nil && i < st.NumFields(); i++ {
+									assigned[st.Field(i).Name()] = true // *t = TransactionContext{...}
+								}
+							}
+						}
+					}
+					return true
+				})
+				var missing []string
+				for i := 0; st != nil && i < st.NumFields(); i++ {
+					if !assigned[st.Field(i).Name()] {
+						missing = append(missing, st.Field(i).Name())
+					}
+				}
+				if len(missing) == 0 {
+					return []flow.Tag{"reset"}
+				}
+				partial = core.ShortKey(callee) + " leaves " + strings.Join(missing, ", ") + " as they were"
+			}
+			return nil
+		},
+		AssignTags: func(pkg *packages.Package, as *ast.AssignStmt) []flow.Tag {
+			if len(as.Lhs) == 1 && len(as.Rhs) == 1 {
+				if sel, ok := ast.Unparen(as.Lhs[0]).(*ast.SelectorExpr); ok && sel.Sel.Name == "txCtx" {
+					if c, ok := ast.Unparen(as.Rhs[0]).(*ast.CallExpr); ok {
+						if g := core.Callee(pkg.TypesInfo, c); g != nil && g.Name() == "NewTxCtx" {
+							return []flow.Tag{"reset"}
+						}
+					}
+				}
+			}
+			return nil
+		}}
+	res := sp.Analyze(f)
+	n := 0
+	for _, cp := range res.Calls {
+		if !inSet("delegate", cp.Tags...) {
+			continue
+		}
+		n++
+		r.Sites++
+		why := "the connection is handed back for reuse without a fresh transaction context"
+		if partial != "" {
+			why += " (" + partial + ")"
+		}
+		r.Check(cp.Before.Has("reset"), "C16.reset", core.ShortKey(f.Obj)+" starts the reused connection with a fresh transaction context", w.Pos(cp.Call.Pos()), "fresh context before delegating to the driver",
+			why+": a connection that served a global-transaction branch keeps AT/XA mode, and the next local transaction on it is handled as a branch (no BEGIN reaches the database, Commit/Rollback do nothing)")
+	}
+	if n == 0 {
+		r.Undecided("C16.reset", core.ShortKey(f.Obj)+" delegates to the driver's ResetSession", w.Pos(f.Decl.Pos()), "no call of driver.SessionResetter.ResetSession found")
 	}
 }
